@@ -10,6 +10,7 @@ from ..astq import U, arg_of, call_name, calls, fn_walk, self_attr, stmt_key, wa
 from ..cfg import CFG
 from ..interp import Closure, Obj, Raised, Sym, Undecided
 from ..loader import AnalysisError, body_of
+from .exchange import ExchMixin
 
 
 class _Rec(FinamInterp):
@@ -79,32 +80,30 @@ def r20_target(repo, sink):
     # Input.ping / Input.pull_data / Output.pinged
     inp = repo.cls("Input")
     f = repo.resolve(inp, "ping", "method")
-    it = _Rec(repo)
-    src = Obj(label="source")
-    me = Obj(cls=inp, label="Input")
-    me.fields.update(_source=src, logger=Logger(label="logger"))
+    it = _ConvRec(repo)
+    me, _src, _rq, _dl = _linked(repo, it)
+    it.events.clear()
     it.run(f, [], self_obj=me)
-    sink.check([c[2] for c in it.calls if c[1] == "pinged"] == [(me,)], "R20", "ping:Input", f,
+    sink.check([e[1] for e in it.events if e[0] == "pinged"] == [(me,)], "R20", "ping:Input", f,
                ok="Input.ping registers the input itself", bad="Input.ping does not register the input itself")
     pd = repo.resolve(inp, "pull_data", "method")
     for tgt_given in (False, True):
         for static in (False, True):
-            it = _PullRec(repo)
-            me = Obj(cls=inp, label="Input")
-            src = Obj(label="source")
-            me.fields.update(_source=src, logger=Logger(label="logger"), _static=static, _cached_data=None, name="in")
-            t = Obj(label="target") if tgt_given else None
+            it = _ConvRec(repo)
             q = Sym("q")
             it.order.name(q, "q", 1)
+            me, _src, _rq, _dl = _linked(repo, it, static=static)
+            it.events.clear()
+            t = Obj(label="target") if tgt_given else None
             ret = it.run(pd, [q] + ([t] if tgt_given else []), self_obj=me)
-            got = [c for c in it.calls if c[1] == "get_data"]
+            got = [e for e in it.events if e[0] == "fetch"]
             want = t if tgt_given else me
-            ok = len(got) == 1 and got[0][2][0] == q and got[0][2][1] is want
+            ok = len(got) == 1 and len(got[0][1]) == 2 and got[0][1][0] == q and got[0][1][1] is want
             ok = ok and isinstance(ret, Sym) and ret.op == "converted"
             sink.check(ok, "R20", f"pull-identity:Input:{'static' if static else 'dynamic'}:{'forwarded' if tgt_given else 'own'}", pd,
                        ok="source is asked with the request time and the requesting end point",
-                       bad=f"Input.pull_data asks its source with {got[0][2] if got else None} and returns {ret!r}; expected a request (time, "
-                           f"{'given target' if tgt_given else 'self'}) and the result of _convert_and_check")
+                       bad=f"Input.pull_data asks its source with {got[0][1] if got else None} and returns {ret!r}; expected a request (time, "
+                           f"{'given target' if tgt_given else 'self'}) and the converted, checked result")
     out = repo.cls("Output")
     pg = repo.resolve(out, "pinged", "method")
     it = _Rec(repo)
@@ -470,12 +469,18 @@ def r17_pushpath(repo, sink):
 
 
 # =========================================================================== R18
-class _ConvRec(FinamInterp):
+class _ConvRec(ExchMixin, FinamInterp):
     def __init__(self, repo):
         super().__init__(repo)
         self.events = []
 
     def call_hook(self, fv, args, kwargs, node, mod):
+        if isinstance(fv, Sym) and fv.op == "src_get_data":
+            self.events.append(("fetch", tuple(args) + tuple(kwargs.get(k) for k in ("target",) if k in kwargs)))
+            return Sym("raw")
+        if isinstance(fv, Sym) and fv.op == "src_pinged":
+            self.events.append(("pinged", tuple(args)))
+            return None
         if isinstance(fv, Closure):
             n = getattr(fv.func, "name", "")
             if n == "to_units":
@@ -493,6 +498,10 @@ class _ConvRec(FinamInterp):
     n_time = 1
 
     def get_attr(self, obj, attr, node, mod):
+        if isinstance(obj, Obj) and obj.label == "source" and attr == "get_data":
+            return Sym("src_get_data")
+        if isinstance(obj, Obj) and obj.label == "source" and attr == "pinged":
+            return Sym("src_pinged")
         if isinstance(obj, Sym) and attr == "shape" and obj.op in ("raw", "transformed", "item"):
             return (self.n_time, Sym("n"))
         if isinstance(obj, Sym) and attr in ("size", "magnitude", "units"):
@@ -515,23 +524,37 @@ class _ConvRec(FinamInterp):
         return super().ext_call(name, args, kwargs, node)
 
 
+def _linked(repo, it, static=False, same_grid=False):
+    from .exchange import linked_input
+    src = Obj(label="source", markers={"IOutput", "IAdapter"}, fields={"logger_name": "src", "name": "src"})
+    return linked_input(repo, it, static=static, same_grid=same_grid, src=src)
+
+
 def r18_pullpath(repo, sink):
+    """Pull path of an Input that was constructed, linked and connected by the real code
+    (constructor, source setter, exchange_info - no private attribute is named): what
+    pull_data(time) does with the data its source returns."""
+    from .exchange import U2
     inp = repo.cls("Input")
-    cc = repo.resolve(inp, "_convert_and_check", "method")
+    pd = repo.resolve(inp, "pull_data", "method")
+    q = Sym("q")
     for with_tr in (False, True):
         it = _ConvRec(repo)
-        me = Obj(cls=inp, label="Input")
-        info = Obj(label="in_info", fields={"units": Sym("u_in")})
-        me.fields.update(_transform=Sym("transform") if with_tr else None, _input_info=info, logger=Logger(label="logger"), name="in")
+        it.order.name(q, "q", 1)
+        me, _src, _req, _deliv = _linked(repo, it, same_grid=not with_tr)
+        info = _prop_info(repo, it, me)
+        it.events.clear()
         try:
-            got = it.run(cc, [Sym("raw")], self_obj=me)
+            got = it.run(pd, [q], self_obj=me)
         except (Raised, Undecided) as exc:
-            raise AnalysisError(f"_convert_and_check outside vocabulary: {exc}") from exc
+            raise AnalysisError(f"Input.pull_data outside vocabulary: {exc}") from exc
         kinds = [e[0] for e in it.events]
         tu = [e for e in it.events if e[0] == "to_units"]
         ck = [e for e in it.events if e[0] == "check"]
         why = None
-        if with_tr and "transform" not in kinds:
+        if kinds.count("fetch") != 1:
+            why = f"the source is asked {kinds.count('fetch')} times"
+        elif with_tr and "transform" not in kinds:
             why = "the grid transformation is not applied"
         elif not with_tr and "transform" in kinds:
             why = "a transformation is applied although none is set"
@@ -539,7 +562,7 @@ def r18_pullpath(repo, sink):
             why = f"stages are {kinds}: exactly one unit conversion and one check are required"
         elif kinds.index("to_units") > kinds.index("check") or (with_tr and max(i for i, k in enumerate(kinds) if k == "transform") > kinds.index("to_units")):
             why = f"stages are out of order: {kinds} (transform -> to_units -> check)"
-        elif tu[0][2] != Sym("u_in") or tu[0][3] is not True:
+        elif tu[0][2] != U2 or tu[0][3] is not True:
             why = f"units are converted to {tu[0][2]!r} with check_equivalent={tu[0][3]}; must be the input's units with check_equivalent=True"
         elif ck[0][1] != Sym("converted", tu[0][1]) or ck[0][2] is not info:
             why = "the converted data is not checked against the input's info"
@@ -547,35 +570,41 @@ def r18_pullpath(repo, sink):
             why = f"returns {got!r}, not the converted and checked data"
         elif with_tr and "transformed" not in repr(tu[0][1]):
             why = "unit conversion runs on the untransformed data"
-        sink.check(why is None, "R18", f"convert:{'with' if with_tr else 'without'}-transform", cc,
-                   ok="transform (if any) -> to_units(input units, check_equivalent) -> check(input info) -> return", bad=why or "")
+        elif "raw" not in repr(tu[0][1]):
+            why = "the converted data is not what the source returned"
+        sink.check(why is None, "R18", f"convert:{'with' if with_tr else 'without'}-transform", pd,
+                   ok="fetch -> transform (if any) -> to_units(input units, check_equivalent) -> check(input info) -> return", bad=why or "")
     # several time entries (e.g. behind StackTime): the re-assembled array keeps the units of the transformed slices
     it = _ConvRec(repo)
+    it.order.name(q, "q", 1)
     it.n_time = 2
-    me = Obj(cls=inp, label="Input")
-    info = Obj(label="in_info", fields={"units": Sym("u_in")})
-    me.fields.update(_transform=Sym("transform"), _input_info=info, logger=Logger(label="logger"), name="in")
     try:
-        it.run(cc, [Sym("raw")], self_obj=me)
+        me, _src, _req, _deliv = _linked(repo, it)
+        it.events.clear()
+        it.run(pd, [q], self_obj=me)
         tu = [e for e in it.events if e[0] == "to_units"]
         arg = tu[0][1] if tu else None
         ok = len([e for e in it.events if e[0] == "transform"]) == 2 and tu
         if ok and isinstance(arg, Sym) and arg.op == "qty":
             units = arg.args[1]
-            ok = "transformed" in repr(units) and "u_in" not in repr(units)
+            ok = "transformed" in repr(units) and "req" not in repr(units)
             why = f"re-assembled time slices are labelled with {units!r}"
         elif ok:
             why = ""
         else:
             why = f"stages {[e[0] for e in it.events]}"
-        sink.check(bool(ok), "R18", "convert:several-time-entries", cc,
+        sink.check(bool(ok), "R18", "convert:several-time-entries", pd,
                    ok="every time slice is transformed; the re-assembled data keeps the slices' own units before the unit conversion",
                    bad=why + ": labelling them with the input's units turns the following conversion into a no-op (1000 m arrive as 1000 km)")
     except (Raised, Undecided, AnalysisError) as exc:
-        sink.unknown("R18", "convert:several-time-entries", cc, f"outside vocabulary: {exc}")
-    f = repo.resolve(inp, "pull_data", "method")
-    gets = [c for c in calls(f.node, "get_data")]
-    sink.floor("R18", "source.get_data sites in Input.pull_data", len(gets), 1, f)
+        sink.unknown("R18", "convert:several-time-entries", pd, f"outside vocabulary: {exc}")
+
+
+def _prop_info(repo, it, me):
+    g = repo.resolve(me.cls, "info", "getter")
+    if g is None:
+        raise AnalysisError("Input.info is not a property")
+    return it.run(g, [], self_obj=me)
 
 
 def _block(st):
